@@ -77,3 +77,6 @@ pub fn id_parts(identifier: entity::Identifier) -> (usize, u64) {
 pub fn id_from_parts(index: usize, generation: u64) -> entity::Identifier {
     entity::Identifier::new(index, generation)
 }
+
+#[cfg(feature = "rayon")]
+pub mod rayon_shim;
